@@ -256,6 +256,12 @@ fn exec_line(rec: &mut Recorder, inst: &mut Option<Inst>, line: &str) {
                 let (calls, _) = i.with_hook(inj, |df| {
                     df.run_tick_sync();
                 });
+                if calls == u64::MAX {
+                    rec.check(false, "tick-panicked", &format!("prog={}", i.dsl));
+                    rec.line(line, "panic");
+                    *inst = None;
+                    return;
+                }
                 let after: u64 = i.df.current_tick().into();
                 let outs = i.collect(before, after);
                 rec.check(after == before + 1 && calls == 1, "tick-counter-not-plus-one", &format!("prog={} before={} after={} closure calls={}", i.dsl, before, after, calls));
